@@ -70,16 +70,19 @@ func runMux(o *Out, r *rand.Rand, focus string) {
 		{"GO", "r0 r1 w1 w0 f:0:-:1"},
 		{"NNN", "r0 r1 r2 w0 w1 w2 f:1:-:11 f:0:-:12 f:2:-:13 f:7:-:14 f:1:qo:15"}, // replies must survive later frames
 		{"GG", "r0 r1 w0 w1 f:0:E:21 f:1:E:22 f:5:E:23"},
-		{"GG", "r0 w0 H1"},    // a call entering send() while the reader winds the connection up
-		{"GB", "r0 w0 K1"},    // … or while Close is in progress
+		{"GG", "r0 w0 H1"}, // a call entering send() while the reader winds the connection up
+		{"GB", "r0 w0 K1"}, // … or while Close is in progress
 		{"BGG", "r1 w1 H0 r2"},
 		{"GG", "r0 r1 w0 w1 f:0:k:5 f:1:-:6"}, // a response in an unknown serialize type fails its own call only
-		{"GD", "r0 y0 r1 y1 c1 w0 f:0:-:4"}, // the deadline of one caller passes while it and another call are inside Write
+		{"GD", "r0 y0 r1 y1 c1 w0 f:0:-:4"},   // the deadline of one caller passes while it and another call are inside Write
 		{"GD", "r0 y0 r1 w1 c1 w0 f:0:-:5"},
-		{"GG", "r0 w0 N1"},             // a call sent while the reader hands its connection-lost notice to a slow consumer
+		{"GG", "r0 w0 N1"}, // a call sent while the reader hands its connection-lost notice to a slow consumer
 		{"GBG", "r0 w0 f:0:qo:3 N1 r2"},
-		{"GG", "r0 w0 r1 w1 p:0:3 C"},  // the peer dies in the middle of the response to call 0
+		{"GG", "r0 w0 r1 w1 p:0:3 C"}, // the peer dies in the middle of the response to call 0
 		{"GB", "r0 w0 r1 w1 f:1:-:9 p:0:1"},
+		{"GGG", "r0 r1 w1 e0 r2 w2 f:1:-:5 f:2:-:6"}, // a call that fails after a later one was registered: its sequence number is spent
+		{"GGB", "r0 r1 w1 x0 r2 w2 f:2:-:6 f:1:-:5"},
+		{"BGG", "r0 r1 w1 c0 e0 r2 w2 f:1:-:7 f:2:-:8"},
 	}
 	for _, c := range corpus {
 		muxCase(o, c[0], strings.Fields(c[1]))
@@ -87,6 +90,12 @@ func runMux(o *Out, r *rand.Rand, focus string) {
 	for i := 0; i < n; i++ {
 		kinds, evs := genMuxSchedule(r, focus)
 		muxCase(o, kinds, evs)
+		// schedules that cannot be executed step by step each cost a watchdog period: once there are
+		// plenty of them the verdict is settled and the remaining schedules add nothing
+		if o.violationsOf("mux.rig") >= 12 {
+			o.Note("stopped after %d schedules: %d of them could not be executed step by step", i+1, o.violationsOf("mux.rig"))
+			break
+		}
 	}
 }
 
